@@ -1,5 +1,7 @@
+mod actorops;
 mod c01;
 mod c02;
+mod c03;
 mod c05;
 mod common;
 mod storeops;
@@ -21,7 +23,9 @@ fn main() -> anyhow::Result<()> {
         "C01" => c01::run(seed, n, &out, thorough, "C01", "Check.C01"),
         "C02" => c02::run(seed, n, &out, thorough),
         "C07" | "C13" | "C15" | "C16" | "C17" => storeprops::run(prop, seed, n, &out, thorough),
+        "C12" | "C14" => actorops::run(prop, seed, n, &out, thorough),
         "C08" => c01::run(seed, n, &out, thorough, "C08", "Check.C08"),
+        "C03" => c03::run(seed, n, &out, thorough),
         "C05" => c05::run(seed, n, &out, thorough),
         _ => anyhow::bail!("unknown property {prop}"),
     }
